@@ -25,6 +25,27 @@ def fingerprint(med):
     for t in act._taggers:
         handlers += list(t.get_event_handlers())
     hidx = {id(h): i for i, h in enumerate(handlers)}
+    # the potentials the event handlers carry (C structs behind cffi are rebuilt on load): probed at two fixed separations
+    import jellyfysh.setting as setting
+    dim = setting.dimension
+    try:
+        lengths = list(setting.hypercuboid_setting.system_lengths)
+    except Exception:
+        lengths = [1.0] * dim
+    probes = []
+    for i, h in enumerate(handlers):
+        for attr in ("_potential", "_bounding_potential"):
+            pot = getattr(h, attr, None)
+            if pot is None or not hasattr(pot, "derivative") or getattr(pot, "number_separation_arguments", 0) != 1:
+                continue
+            for fr in ((0.31, 0.17, 0.23), (0.05, 0.41, 0.38)):
+                try:
+                    val = pot.derivative([1.0] + [0.0] * (dim - 1), [f * L for f, L in zip(fr, lengths)],
+                                         *([1.0] * pot.number_charge_arguments))
+                    probes.append([i, attr, float.hex(float(val))])
+                except Exception as e:      # noqa
+                    probes.append([i, attr, type(e).__name__])
+    fp["potentials"] = probes
     fp["taggers"] = [[t.tag, [_ids(ids) for ids in t.yield_identifiers_send_event_time(active)]] for t in act._taggers]
     cells = []
     for st in act._internal_states:
